@@ -7,6 +7,7 @@ PROPERTY_MODULES = {
     "C02": ["contracts.c01", "contracts.c02"],
     "C10": ["contracts.c10"],
     "C11": ["contracts.c05", "contracts.c11"],
+    "C12": ["contracts.c12"],
     "C19": ["contracts.c19"],
     "C16": ["contracts.c16"],
     "C17": ["contracts.c17"],
